@@ -456,3 +456,19 @@ def alias_request_pool(tree):
 
 VARIANTS.append(A("S33-local-aliases-of-queue-and-lock", "silent", POOL, "threadpool", alias_fields_in_pool))
 VARIANTS.append(A("S34-local-alias-of-the-request-pool", "silent", ["C12", "C01"], "SimpleJSONRPCServer", alias_request_pool))
+
+
+# ---- shared mutable state (class-level container, mutable default argument) --------------------------------
+def _class_level_headers(tree):
+    cls = [n for n in tree.body if isinstance(n, ast.ClassDef) and n.name == "TransportMixIn"][0]
+    init = [m for m in cls.body if isinstance(m, ast.FunctionDef) and m.name == "__init__"][0]
+    init.body = [st for st in init.body if not (isinstance(st, ast.Assign) and ast.unparse(st.targets[0]) == "self.additional_headers")]
+    cls.body.insert(1, ast.parse("additional_headers = []").body[0])
+    ast.fix_missing_locations(tree)
+    return tree
+
+
+VARIANTS.append(A("X53-header-stack-bound-at-class-level", "fire", ["C18", "C19", "C13"], "jsonrpc", _class_level_headers))
+VARIANTS.append(E("X54-history-lists-as-mutable-defaults", "fire", ["C13"], "history",
+                  "    def __init__(self):\n        \"\"\"\n        Sets up members\n        \"\"\"\n        self.requests = []\n        self.responses = []\n",
+                  "    def __init__(self, requests=[], responses=[]):\n        \"\"\"\n        Sets up members\n        \"\"\"\n        self.requests = requests\n        self.responses = responses\n"))
